@@ -90,8 +90,11 @@ func ruleC12R2(r *Run) {
 				for _, b := range p.body(cl) {
 					for _, in := range b.Instrs {
 						if st, isSt := in.(*ssa.Store); isSt {
-							if ia, isIA := st.Addr.(*ssa.IndexAddr); isIA && p.expr(st.Val) == "$u" && strings.HasPrefix(p.expr(ia.X), "builtin:append(nil, $s.rec.data") {
-								ok = true
+							if ia, isIA := st.Addr.(*ssa.IndexAddr); isIA && p.expr(st.Val) == "$u" {
+								ex := p.expr(ia.X)
+								if strings.HasPrefix(ex, "builtin:append(nil, $s.rec.data") || ex == "slices.Clone($s.rec.data)" || ex == "bytes.Clone($s.rec.data)" {
+									ok = true
+								}
 							}
 						}
 					}
